@@ -3,7 +3,7 @@
     followed by [Print Assumptions].  Specification: Spec06.v (inscope, sp_tag, dyck / stream_ok, Appendix B).
     Models: Model06.v (capacities, duplicate-check threshold and error classes: Gen/GenElemStack.v, regenerated from
     /repo on every run). *)
-From XV Require Import Base.XDefs Gen.GenElemStack C06.Spec06 C06.Model06 C06.Proofs06a C06.Proofs06b C06.Proofs06c C06.Proofs06d.
+From XV Require Import Base.XDefs Gen.GenElemStack C06.Spec06 C06.Model06 C06.Proofs06a C06.Proofs06b C06.Proofs06c C06.Proofs06d C06.Proofs06e.
 From Coq Require Import Arith.
 Local Open Scope nat_scope.
 
@@ -41,12 +41,13 @@ Print Assumptions T06_map_growth_strict.
     represents the declarations [rows] of the open elements: the tag is accepted exactly when the Spec accepts it
     ([sp_tag]: all declarations legal, no unbound prefix, no two attributes with one expanded name), the element and
     every attribute get the namespace [inscope] assigns -- the declarations of the tag itself included, wherever
-    they stand among the attributes -- and the new state represents the extended scope *)
+    they stand among the attributes -- and the new state represents the extended scope.
+    ([wf_attr]: the local part of an attribute name is not empty; [triple_x] / [triple_a]: prefix, local part, value) *)
 Theorem T06_resolve_sound : forall c s rows pfx loc attrs s' uri xs,
-  nonwf c -> SInvR (c_v11 c) s rows -> startTag c s pfx loc attrs = Ok (s', uri, xs) ->
+  nonwf c -> SInvR (c_v11 c) s rows -> Forall wf_attr attrs -> startTag c s pfx loc attrs = Ok (s', uri, xs) ->
   exists e ans, sp_tag (c_v11 c) rows pfx (map sp_of attrs) = Some (e, ans) /\
                 res_ok (sc_uris s') uri e /\ Forall2 (fun x r => res_ok (sc_uris s') (xa_uri x) r) xs ans /\
-                map (fun x => (xa_pfx x, xa_loc x, xa_val x)) xs = map (fun a => (ra_pfx a, ra_loc a, ra_val a)) attrs /\
+                map triple_x xs = map triple_a attrs /\
                 SInvR (c_v11 c) s' (sp_decls (map sp_of attrs) :: rows).
 Proof. exact startTag_sound. Qed.
 Print Assumptions T06_resolve_sound.
@@ -54,7 +55,7 @@ Print Assumptions T06_resolve_sound.
 (** every tag that violates a namespace constraint (unbound prefix, xmlns:xmlns, re-binding xml, binding the xml /
     xmlns namespace names, xmlns:p="" in 1.0, colliding expanded names) is rejected with one of the namespace errors *)
 Theorem T06_resolve_errors : forall c s rows pfx loc attrs,
-  nonwf c -> SInvR (c_v11 c) s rows -> sp_tag (c_v11 c) rows pfx (map sp_of attrs) = None ->
+  nonwf c -> SInvR (c_v11 c) s rows -> Forall wf_attr attrs -> sp_tag (c_v11 c) rows pfx (map sp_of attrs) = None ->
   exists e, startTag c s pfx loc attrs = Err e /\ ns_error e = true.
 Proof. exact startTag_rejects. Qed.
 Print Assumptions T06_resolve_errors.
@@ -128,13 +129,40 @@ Theorem T06_dom_is_default : forall chain u, Forall parsed_elem chain -> consist
 Proof. exact is_default_inscope. Qed.
 Print Assumptions T06_dom_is_default.
 
-(** lookupPrefix is sound (the prefix it answers is bound to the namespace name in scope).  Partial: that it answers
-    null only when no prefix is bound is not proved (covered by the correspondence + Spec oracle sp_prefixes). *)
-Theorem T06_dom_lookup_prefix_partial : forall chain u p, Forall parsed_elem chain -> consistent chain -> u <> [] ->
+(** lookupPrefix is sound (the prefix it answers is bound to the namespace name in scope of the node) and complete
+    (it answers a prefix whenever a non-reserved one is bound to that name in scope) *)
+Theorem T06_dom_lookup_prefix : forall chain u p, Forall parsed_elem chain -> consistent chain -> u <> [] ->
   m_lookup_prefix chain u = Some p -> p <> [] -> name_eqb p s_xml = false -> name_eqb p s_xmlns = false ->
   inscope (chain_rows chain) p = Some u.
 Proof. exact lookup_prefix_sound. Qed.
-Print Assumptions T06_dom_lookup_prefix_partial.
+Print Assumptions T06_dom_lookup_prefix.
+Theorem T06_dom_lookup_prefix_complete : forall chain u q, Forall parsed_elem chain -> consistent chain -> u <> [] -> q <> [] ->
+  name_eqb q s_xml = false -> name_eqb q s_xmlns = false -> inscope (chain_rows chain) q = Some u ->
+  m_lookup_prefix chain u <> None.
+Proof. exact lookup_prefix_complete. Qed.
+Print Assumptions T06_dom_lookup_prefix_complete.
+
+(** the trees the DOM parser builds satisfy these hypotheses: the element AbstractDOMParser::startElement creates from
+    a resolved start tag (T06_resolve_sound) is namespace-well-formed and consistent, and its ancestor chain carries
+    the same bindings as the scanner's scope (the attribute map is sorted by name, so the declarations are read off
+    in another order -- immaterial, because a tag cannot declare a prefix twice).  By induction over the document:
+    on the DOM built from a parsed document lookupNamespaceURI n p = inscope (declarations of the open elements) p. *)
+Theorem T06_dom_built : forall c s rows pfx loc attrs s' uri xs up,
+  nonwf c -> SInvR (c_v11 c) s rows -> Forall wf_attr attrs -> startTag c s pfx loc attrs = Ok (s', uri, xs) ->
+  rows_equiv (chain_rows up) rows -> consistent up ->
+  let e := dom_elem (sc_uris s') uri pfx loc xs in
+  parsed_elem e /\ consistent (e :: up) /\ rows_equiv (chain_rows (e :: up)) (sp_decls (map sp_of attrs) :: rows).
+Proof. exact dom_elem_built. Qed.
+Print Assumptions T06_dom_built.
+
+Theorem T06_dom_lookup_parsed : forall chain rows p, Forall parsed_elem chain -> consistent chain ->
+  rows_equiv (chain_rows chain) rows -> p <> Some [] ->
+  name_eqb (pfx_or_empty p) s_xml = false -> name_eqb (pfx_or_empty p) s_xmlns = false ->
+  canon (m_lookup_ns chain p) = inscope rows (pfx_or_empty p).
+Proof.
+  intros chain rows p H1 H2 H3 H4 H5 H6. rewrite (lookup_ns_inscope chain p H1 H2 H4 H5 H6). apply inscope_equiv. exact H3.
+Qed.
+Print Assumptions T06_dom_lookup_parsed.
 
 (** F8 (fixes/C06-lookup-null.patch): a document without document element answers null / false instead of
     dereferencing a null pointer *)
